@@ -22,6 +22,7 @@ from engine.polymodel import (Poly, Arr, ExpMat, NamesV, DTypeV, KeySeq, Region,
 from engine.sortmodel import meq, order_axioms
 from engine.optmodel import ovbool, okey
 from contracts.construct import keyok, eok_axioms, PolynomialFromAttributes
+from contracts.align import extra_shape_axioms
 
 
 def own_poly(ex, base="self", allocation=True):
@@ -250,6 +251,71 @@ class GetItem(Contract):
         return r
 
 
+class Iter(Contract):
+    """ndpoly.__iter__: an iterator over len(self) polynomial arrays; the k-th is built by polynomial_from_attributes from the
+    polynomial's OWN exponent rows and names and, for every term, that term's coefficient array at index k of the first axis
+    (so - B6 - it is element / sub-array k); len() of a 0-d array raises TypeError."""
+    name = "numpoly.ndpoly.__iter__"
+    relpath = "numpoly/baseclass.py"
+    func = "__iter__"
+    cls = "ndpoly"
+    properties = ("C09", "C17")
+    assumptions = ("B6 (indexing every coefficient column alike takes whole elements); contract of polynomial_from_attributes (proved)",)
+
+    def cases(self):
+        for label, sized in (("nd", True), ("0d", False)):
+            def make_env(ex, sized=sized):
+                from engine.logic import ndim
+                P = own_poly(ex, "self", allocation=False)
+                for a in extra_shape_axioms(ex.ctx):
+                    ex.ctx.assume(a)
+                ex.ctx.assume(ndim(P.shape) >= 1 if sized else ndim(P.shape) == 0)
+                ex.P = P
+                return {"self": P}
+
+            def check(out, sized=sized):
+                from engine.polymodel import extent, drop_axis, at0
+                ex, ctx = out.ex, out.ctx
+                P = ex.P
+                if not sized:
+                    ex.oblige("raises.TypeError_for_a_0d_array", z3.BoolVal(out.kind == "raise" and out.exc == "TypeError"), "post")
+                    return
+                ex.oblige(f"raises.nothing[{out.exc}]" if out.kind == "raise" else "raises.nothing", z3.BoolVal(out.kind == "return"), "post")
+                if out.kind != "return":
+                    return
+                r = out.value
+                ok = isinstance(r, V.Seq)
+                ex.oblige("post.iterator_over_a_sequence", z3.BoolVal(ok), "post")
+                if not ok:
+                    return
+                n = extent(P.shape, z3.IntVal(0))
+                ex.oblige("post.one_item_per_index_of_the_first_axis", r.n == n, "post")
+                k = ctx.int("k")
+                ctx.assume(z3.And(0 <= k, k < n))
+                try:
+                    x = r.item(k)
+                except RaiseSig as e:
+                    # (a path on which building item k raises: must be infeasible)
+                    ex.oblige(f"post.item_k.built_without_error[{e.exc}]", z3.BoolVal(False), "post")
+                    return
+                okx = isinstance(x, Poly) and hasattr(x, "from_attrs")
+                ex.oblige("post.item_built_by_polynomial_from_attributes", z3.BoolVal(okx), "post")
+                if not okx:
+                    return
+                fa = x.from_attrs
+                so = getattr(fa["C"], "slice_of", None)
+                ex.oblige("post.item_k.own_exponents_and_names", z3.BoolVal(
+                    getattr(fa["E"], "source", None) is P and isinstance(fa["names"], NamesV) and fa["names"].term is P.names), "post")
+                ex.oblige("post.item_k.every_column_indexed_at_k", z3.BoolVal(so is not None and so[0] is P) if so is None or so[0] is not P
+                          else so[1] == k, "post", note="the same index k of the first axis in every coefficient column: element k")
+                ex.oblige("post.item_k.shape", x.shape == drop_axis(P.shape, 0), "post")
+                ex.oblige("post.item_k.retain_flags_left_to_the_options", z3.BoolVal(fa["rc"] is None and fa["rn"] is None), "post")
+            yield Case(label, make_env, check)
+
+    def apply(self, ex, args, kw, node):
+        raise U("__iter__ as a callee", node)
+
+
 class AsType(Contract):
     name = "numpoly.ndpoly.astype"
     relpath = "numpoly/baseclass.py"
@@ -328,4 +394,4 @@ class ToDict(Contract):
         raise U("todict as a callee", node)
 
 
-CONTRACTS = [Reduce(), ArrayFinalize(), GetItem(), AsType(), ToDict()]
+CONTRACTS = [Reduce(), ArrayFinalize(), GetItem(), AsType(), ToDict(), Iter()]
